@@ -112,6 +112,21 @@ func newC07World() *c07World {
 		}
 	}
 	cw.starts["after-deposits"] = ctx
+	// third start state: a rollup on which nothing has been minted yet — module accounts come into
+	// being on first use, so the opchild module account does not exist
+	pctx, _ := cw.w.Ctx.CacheContext()
+	if acc := cw.w.AK.GetAccount(pctx, authtypes.NewModuleAddress(opchildtypes.ModuleName)); acc != nil {
+		cw.w.AK.RemoveAccount(pctx, acc)
+	}
+	cw.starts["no-module-account"] = pctx
+	// fourth start state: on such a rollup a zero-amount deposit named the opchild module address as its
+	// recipient, which left a plain account there (from then on the module account cannot be created)
+	sctx, _ := pctx.CacheContext()
+	cw.f.Reset(nil)
+	if r := cw.w.Deliver(sctx, opchildtypes.NewMsgFinalizeTokenDeposit(ex, "l1sender", authtypes.NewModuleAddress(opchildtypes.ModuleName).String(), sdk.NewInt64Coin(c07DenA, 0), 1, 3, "uxx", nil)); !r.OK() {
+		cw.setupViolation = tagged(viol("finalization-at-expected-sequence-succeeds", "building the fourth start state: %v", r.Err), "rcpt", "opchild-module")
+	}
+	cw.starts["module-address-squatted"] = sctx
 	return cw
 }
 
@@ -358,10 +373,10 @@ func c07ResidueClass(cw *c07World, before, after sdk.Context, ch world.RawChange
 			return "auth: the hook signer's account changed beyond its sequence"
 		}
 		if rcpt != nil && bytes.Contains(ch.Key, rcpt) && ch.Was == nil {
-			return "auth: an account record for the recipient, created by the transfer that was undone"
+			return "auth: an account record created by the mint/transfer that was undone"
 		}
 		if mod := authtypes.NewModuleAddress(opchildtypes.ModuleName); bytes.Contains(ch.Key, mod) && ch.Was == nil {
-			return "auth: the opchild module account, created by the mint that was undone"
+			return "auth: an account record created by the mint/transfer that was undone"
 		}
 		if bytes.HasPrefix(ch.Key, []byte("accountNumber")) && ch.Was == nil {
 			return "auth: an account-number index entry"
@@ -505,7 +520,7 @@ func (cw *c07World) exec(in c07Input, plan map[int]string, wantPrefix []string) 
 			return obs, tagged(viol("refund-leaves-no-net-mint", "%s: refunded but supply %+v, recipient %+v", label, dSupply, dRcpt), "payload", in.Payload)
 		}
 		want := map[string]string{"from": to, "to": "l1sender", "denom": denom, "base_denom": baseDenom, "amount": amt.String(), "l2_sequence": strconv.FormatUint(before.nextL2, 10)}
-		if in.Start == "after-deposits" && in.Denom == "A" {
+		if (in.Start == "after-deposits" || in.Start == "module-address-squatted") && in.Denom == "A" {
 			want["base_denom"] = "uxx"
 		}
 		for k, wv := range want {
@@ -575,7 +590,7 @@ func (cw *c07World) exec(in c07Input, plan map[int]string, wantPrefix []string) 
 }
 
 func c07Inputs(rc *engine.RunCtx) (full, faulted []c07Input) {
-	for _, st := range []string{"fresh", "after-deposits"} {
+	for _, st := range []string{"fresh", "after-deposits", "no-module-account", "module-address-squatted"} {
 		for _, r := range c07Rcpts {
 			for _, a := range c07Amounts {
 				for _, d := range []string{"A", "B"} {
